@@ -36,6 +36,10 @@ def _subtree(job):
             recs, _ = sched.execute(program, start[0][1:], opcode=True)
             return idx, [(start[0], recs)], None
         for prefix, recs in sched.explore(program, bound, opcode=opcode, start=start, limit=4000):
+            if any(rec.get('k') == 'stall' for rec in recs):
+                # the scheduler itself got stuck (machine overloaded?): its abandoned threads may still be running in this process and
+                # would disturb every later execution - give up this subtree here, the driver repeats it in a fresh process
+                return idx, None, 'STALL'
             out.append((prefix, recs))
         return idx, out, None
     except Exception as e:
@@ -50,6 +54,8 @@ def _random_runs(job):
         rng = random.Random(seed)
         for i in range(n):
             recs, choices = sched.execute(program, [], opcode=opcode, rng=rng)
+            if any(rec.get('k') == 'stall' for rec in recs):
+                return idx, None, 'STALL'
             out.append((['random', seed, i], recs))
         return idx, out, None
     except Exception as e:
@@ -84,19 +90,35 @@ def explore_all(run, programs, bounds, random_runs=0, opcode_random=False, opcod
     for j, t in zip(jobs, tags):
         (rnd if j[0] == 'R' else norm).append((j, t))
     ctx = multiprocessing.get_context('fork')
-    with ctx.Pool(pipeline.NPROC) as pool:
-        if norm:
-            for idx, out, err in pool.imap_unordered(_subtree, list(enumerate([j for j, t in norm])), chunksize=4):
-                if err:
-                    raise pipeline.MachineryFailure(err)
-                for prefix, recs in out:
-                    results.append((norm[idx][1], prefix, recs))
-        if rnd:
-            for idx, out, err in pool.imap_unordered(_random_runs, list(enumerate([(j[1], j[2], j[3], opcode_random) for j, t in rnd]))):
-                if err:
-                    raise pipeline.MachineryFailure(err)
-                for prefix, recs in out:
-                    results.append((rnd[idx][1], prefix, recs))
+    norm_jobs = list(enumerate([j for j, t in norm]))
+    rnd_jobs = list(enumerate([(j[1], j[2], j[3], opcode_random) for j, t in rnd]))
+    stalls = 0
+
+    def collect(pool, fn, todo, tags_of, attempt):
+        again = []
+        for idx, out, err in pool.imap_unordered(fn, todo, chunksize=1):
+            if err == 'STALL':
+                again.append(idx)
+                continue
+            if err:
+                raise pipeline.MachineryFailure(err)
+            for prefix, recs in out:
+                results.append((tags_of[idx][1], prefix, recs))
+        return again
+    # every task runs in a process of its own (maxtasksperchild=1): threads abandoned by a stalled scheduler die with it
+    for fn, todo, tags_of in ((_subtree, norm_jobs, norm), (_random_runs, rnd_jobs, rnd)):
+        if not todo:
+            continue
+        with ctx.Pool(pipeline.NPROC, maxtasksperchild=1) as pool:
+            again = collect(pool, fn, todo, tags_of, 0)
+        if again:
+            # repeat the stalled subtrees one at a time, when the machine is quieter
+            stalls += len(again)
+            with ctx.Pool(1, maxtasksperchild=1) as pool:
+                still = collect(pool, fn, [t for t in todo if t[0] in set(again)], tags_of, 1)
+            if still:
+                raise pipeline.MachineryFailure('the deterministic scheduler stalled twice on %d subtree(s) (machine overloaded?)' % len(still))
+    run.cov['scheduler_stalls_repeated'] = stalls
     # the same schedule may be reached from two subtrees: keep one
     seen, uniq = set(), []
     for name, prefix, recs in results:
